@@ -110,7 +110,12 @@ class Layout:
                     # a second level: 2-word file in the upper half
                     members = [m for m in members if m < wc // 2] or [0]
                     nested = (wc // 2, [0, 1] if r.random() < 0.5 else [1])
-                self.items.append(Item(k, name, pos * 4, wc, members=members, nested=nested))
+                inner_mem = None
+                if wc == 8 and nested is None and r.random() < 0.5:
+                    # a memory / address range inside the register file (its addresses are relative to the file's global offset)
+                    members = [m for m in members if m < 4] or [0]
+                    inner_mem = (4, r.choice([2, 3, 4]), r.choice(['memory', 'range']))
+                self.items.append(Item(k, name, pos * 4, wc, members=members, nested=nested, inner_mem=inner_mem))
                 pos += wc
             elif k == 'memory':
                 words = r.choice([2, 3, 4, 5, 6, 8])
@@ -299,7 +304,23 @@ class Layout:
                     for m in nm:
                         L.append(f"    n{m}: reg32.MemWord[0x{m * 4:x}]")
                     L.append("")
+                if getattr(it, 'inner_mem', None):
+                    moff, mwords, mkind = it.inner_mem
+                    if mkind == 'memory':
+                        L += [f"class MemIn_{n}(reg32.Memory, word_count={mwords}):", "    pass", ""]
+                        cfg.append(f"        self.{n}.mem._config_(initial=Null)")
+                    else:
+                        L += [f"class MemIn_{n}(reg32.AddrRange, word_count={mwords}):",
+                              "    def _config_(self, top):", "        self._top = top",
+                              "    def _on_read_relative_(self, addr):", "        return std.leftpad(addr, 32)",
+                              "    def _on_write_relative_(self, addr, data, mask):",
+                              f"        self._top.x_{n}_a <<= std.leftpad(addr, 32)", ""]
+                        ports.append(f"    x_{n}_a = Port.output(BitVector[32], default=Null)")
+                        self.exports.append((f"x_{n}_a", 32, it.name, '@ia'))
+                        cfg.append(f"        self.{n}.mem._config_(top)")
                 L.append(f"class Sub_{n}(reg32.RegFile, word_count={it.words}):")
+                if getattr(it, 'inner_mem', None):
+                    L.append(f"    mem: MemIn_{n}[0x{it.inner_mem[0] * 4:x}]")
                 for m in it.members:
                     L.append(f"    m{m}: reg32.MemWord[0x{m * 4:x}]")
                 if it.nested:
@@ -378,6 +399,10 @@ class Layout:
                     noff, nm = it.nested
                     for k in nm:
                         m[it.off + (noff + k) * 4] = (it, noff + k)
+                if getattr(it, 'inner_mem', None):
+                    moff, mwords, mkind = it.inner_mem
+                    for k in range(mwords):
+                        m[it.off + (moff + k) * 4] = (it, ('mem', k))
             elif it.kind == 'memory':
                 for i in range(it.words):
                     m[it.off + i * 4] = (it, i)
@@ -406,6 +431,8 @@ class Model:
                 self.store[a] = 0
             elif it.kind == 'range':
                 self.store[('rng', it.name)] = (0, 0)        # last written (address, data as merged on the port)
+            if it.kind == 'regfile' and getattr(it, 'inner_mem', None) and it.inner_mem[2] == 'range':
+                self.store[('irng', it.name)] = 0            # last written relative address of the inner range
             elif it.kind == 'reg':
                 v = 0
                 for f in it.fields:
@@ -427,6 +454,9 @@ class Model:
             return
         it, i = ent
         mask = strobe_mask(strb)
+        if it.kind == 'regfile' and i.__class__ is tuple and it.inner_mem[2] == 'range':
+            self.store[('irng', it.name)] = i[1] * 4         # relative to the base of the inner range
+            return
         if it.kind in ('memword', 'array', 'regfile', 'output'):
             self.store[addr] = (self.store[addr] & ~mask | data & mask) & M32
         elif it.kind == 'memory':
@@ -462,6 +492,8 @@ class Model:
         if ent is None:
             return 0
         it, i = ent
+        if it.kind == 'regfile' and i.__class__ is tuple and it.inner_mem[2] == 'range':
+            return i[1] * 4
         if it.kind in ('memword', 'array', 'regfile', 'memory', 'rom'):
             return self.store[addr]
         if it.kind == 'range':
@@ -495,6 +527,8 @@ class Model:
         for p, w, iname, fname in self.lay.exports:
             if p == port:
                 it = next(x for x in self.lay.items if x.name == iname)
+                if fname == '@ia':
+                    return self.store[('irng', iname)]
                 if fname in ('@a', '@d'):
                     return self.store[('rng', iname)][0 if fname == '@a' else 1]
                 v = self.store[it.off + self.lay.window_base]
